@@ -245,7 +245,7 @@ CHECKS["C12"] = {
     "assumptions": ["faults below the system-call interface (page cache, disk) are out of scope", "descriptors 0-2 are never faulted"],
     "extra_targets": TOOLS_WRAP,
     "runs": [
-        {"bin": "asan/C12", "cases": P(100, 1500), "procs": P(8, 16), "size": 70, "shrink_budget": 40, "cpu_limit": 300},
+        {"bin": "asan/C12", "cases": P(100, 550), "procs": P(8, 16), "size": 70, "shrink_budget": 40, "cpu_limit": 300},
     ],
 }
 
